@@ -75,7 +75,7 @@ Proof. apply (clears_witness _ _ (fld "witness_utxo")). vm_compute. reflexivity.
 Theorem C14_commutes : forall (id : Type) (id_eqb : id -> id -> bool) (uid : pset -> outcome id) a b x y,
   uid a = Val x -> uid b = Val y -> id_eqb x y = true -> id_eqb y x = true -> pset_pair_ok cur_tables a b ->
   exists c c', merge id_eqb uid a b = Val c /\ merge id_eqb uid b a = Val c' /\ pset_equiv c c'.
-Proof. intros. apply (merge_commutes id_eqb uid cur_tables a b x y); auto. Qed.
+Proof. intros. apply (merge_commutes id_eqb uid cur_tables a b x y); auto; vm_compute; reflexivity. Qed.
 Theorem C14_descendants_compat : forall o a b, extends o a -> extends o b -> additions_agree o a b -> compat a b.
 Proof. exact descendants_compat. Qed.
 (* without the restriction the statement is false: a descendant that added the (unmerged) fallback lock time makes the result depend on
@@ -119,6 +119,21 @@ Qed.
    Proved so far: the two-member case in both orders (C14_commutes).  Larger families are covered only by the correspondence run
    (every permutation and grouping of 2..4 descendants is merged on the implementation and on the model and all results compared). *)
 
+(* ------------------------------------------------------------------ the scalar list *)
+(* Global::scalars is a Vec<Tweak>; its statements (extend / sort / dedup) are read from the source IN ORDER and executed exactly
+   (Model.PsetMerge.vec_merge).  For ANY two scalar lists — unsorted, with repeats, sharing scalars in any positions — the merged list is
+   strictly increasing (so no scalar occurs twice and the PSET serialises without a duplicate key), contains exactly the scalars of both,
+   and is the same whichever operand is merged into which. *)
+Definition scalar_ops : list vec_op := match policy_of pset_global_merge (fld "scalars") with MP_VecOps ops => ops | _ => [] end.
+Theorem C14_scalars : forall a b, vals_nil a -> vals_nil b ->
+  let r := vec_merge scalar_ops a b in
+  al_sorted r = true /\ (forall k, al_mem k r = al_mem k a || al_mem k b) /\ r = vec_merge scalar_ops b a.
+Proof. intros a b. apply scalars_merge. vm_compute. reflexivity. Qed.
+Example C14_scalars_shared :     (* a = [s1; s2], b = [s2]: the shared scalar ends up non-adjacent when a is merged into b *)
+  let s1 := [x01] in let s2 := [x02] in
+  vec_merge scalar_ops [(s2, [])] [(s1, []); (s2, [])] = [(s1, []); (s2, [])] /\ vec_merge scalar_ops [(s1, []); (s2, [])] [(s2, [])] = [(s1, []); (s2, [])].
+Proof. vm_compute. auto. Qed.
+
 (* ------------------------------------------------------------------ xpub key-source reconciliation *)
 (* for every pair of key sources the code does what its comment documents (keep / take the longer / MergeConflict) and never panics;
    v1 is the source arriving from `other`, v2 the one in `self`.  (Before the F2+F4 repair this needed the exclusion of two classes; the
@@ -151,7 +166,11 @@ Check (C14_xpub : forall v1 v2, reconcile v1 v2 = reconcile_doc v1 v2 /\ reconci
 Check (C14_commutes : forall (id : Type) (id_eqb : id -> id -> bool) (uid : pset -> outcome id) a b x y,
   uid a = Val x -> uid b = Val y -> id_eqb x y = true -> id_eqb y x = true -> pset_pair_ok cur_tables a b ->
   exists c c', merge id_eqb uid a b = Val c /\ merge id_eqb uid b a = Val c' /\ pset_equiv c c').
+Check (C14_scalars : forall a b, vals_nil a -> vals_nil b ->
+  let r := vec_merge scalar_ops a b in
+  al_sorted r = true /\ (forall k, al_mem k r = al_mem k a || al_mem k b) /\ r = vec_merge scalar_ops b a).
 Print Assumptions C14_gate.
+Print Assumptions C14_scalars.
 Print Assumptions C14_commutes.
 Print Assumptions C14_keeps_all.
 Print Assumptions C14_keeps_all_refuted.
